@@ -258,7 +258,7 @@ class BuildAssembly(Assembly):
                     last_added_i = i
 
             if new_scffld:
-                scaffold_namer.make_scaffold_name(new_scffld)
+                scaffold_namer.make_scaffold_name(new_scffld, input_name=scffld.name)
                 if (
                     scaffold_namer.target_tags
                     and "Target" not in scffld.fragment_tags()
